@@ -232,7 +232,7 @@ Section CommitInv.
       destruct (c_node _ _ _ _ _ CI i s Gs) as [Hcl Hcp]. fold c0 in Hcl, Hcp. fold L0 in Hcl, Hcp.
       pose proof cs_no_trunc as Hnt. pose proof cs_term_le as Hle.
       destruct (v_ext _ _ _ _ _ _ _ _ _ NI) as [E1 [_ [E3 E4]]].
-      destruct E3 as [X | [X | X]].
+      destruct E3 as [X | [X | [X | X]]].
       - (* not increased: unchanged, or reset by a restart *)
         change (n_commit (with_budget (settle s) k)) with (n_commit s) in X.
         assert (Ec : (c' <= c0)%nat) by (unfold c', c0; lia). split.
@@ -288,6 +288,28 @@ Section CommitInv.
         + subst v. exists L'. split; [apply (k_lead _ _ _ _ _ KI' _ _ _ Rec Hnz') | unfold c'; lia].
         + destruct (cs_pjust v (pr_match p) P3) as [Z | [P [Z1 Z2]]]; [unfold c' in Hnz; lia|].
           exists P. split; [exact Z1 | unfold c'; lia].
+      - (* the commit index was raised to a position where the log agrees with the delivered entries (installed snapshot) *)
+        destruct X as [cm [a [D1 [Ia [Ta [D2 Rk]]]]]]. fold L' in Rk. fold T' in Ta.
+        destruct (Nat.eq_dec c' 0) as [Z | Hnz]; [split; [lia | left; exact Z] |].
+        assert (Hnzc : n_commit s' <> 0) by (unfold c' in Hnz; lia).
+        unfold dc_of in D1. destruct ev as [| md | | | | | |]; try contradiction. destruct (m_body md) eqn:Ebd; try contradiction. subst cm.
+        assert (Htm : m_term md = T').
+        { unfold inp_of in Ia. rewrite Ebd in Ia. destruct ents; [| discriminate]. inversion Ia as [Ea]. rewrite <- Ea in Ta. simpl in Ta. congruence. }
+        destruct (st_resp_ok bm be n σ G A i s (EDeliver md) k s' Hlen KI Gs Hdel Hres NS El0 I20 (n_commit s') Hnzc Rk
+                    ltac:(intros m0 E0; inversion E0 as [Em0]; rewrite <- Em0; exact Htm)) as [Hil [j [l [Rl Fl]]]].
+        fold L' in Hil, Fl. fold c' in Hil, Fl. split; [exact Hil|]. right.
+        destruct (Hdel md eq_refl) as [Min _].
+        destruct (c_msg _ _ _ _ _ CI md _ _ _ _ Min Ebd) as [j2 [l2 [R2 [Hl2 Cp2]]]]. rewrite Htm in R2, Cp2.
+        destruct Cp2 as [Z | [T [P [Cm [HT Hp]]]]]; [unfold c' in Hnz; lia|].
+        exists T, P. split; [eapply committed_mono; eauto using cs_q, cs_inclG, cs_inclA|]. split; [exact HT|].
+        pose proof (g_cmp _ _ _ _ GI _ _ _ _ _ Rl R2) as Cmp.
+        assert (Hll : (c' <= length l)%nat).
+        { assert (Y : length (firstn c' L') = length (firstn c' l)) by (rewrite Fl; reflexivity). rewrite !firstn_length in Y. lia. }
+        assert (F2 : firstn c' l = firstn c' l2) by (apply comparable_firstn; auto; unfold c'; lia).
+        rewrite Fl, F2. destruct Hp as [x Hx]. exists (skipn c' (firstn (N.to_nat commit) l2) ++ x).
+        rewrite app_assoc. rewrite Hx. f_equal.
+        rewrite <- (firstn_skipn c' (firstn (N.to_nat commit) l2)) at 1. f_equal.
+        rewrite firstn_firstn. rewrite Nat.min_l by (unfold c'; lia). reflexivity.
     Qed.
 
     Lemma cs_Go j : j <> i -> get_node j (sy_nodes σ') = get_node j (sy_nodes σ).
